@@ -160,12 +160,14 @@ class Exec:
             if r.ds:
                 continue
             obj.fields[rn] = LatVec(rn) if r.lattice else RelVec(rn)
+            self.ctx.vecs.append(obj.fields[rn])
         self.obj = obj
         return obj
 
     def prune(self):
         for v in self.obj.fields.values():
             M.prune_twice(v, self.ctx)
+        self.ctx.compact([v for v in self.obj.fields.values() if hasattr(v, "compact")])
 
     def run(self):
         self.prune()
